@@ -127,9 +127,9 @@ func render(v ssa.Value, d int, onstack map[ssa.Value]bool) string {
 
 	switch x := v.(type) {
 	case *ssa.Parameter:
-		return "param:" + x.Name()
+		return "param:" + CanonParam(x.Parent(), x.Name())
 	case *ssa.FreeVar:
-		return "free:" + x.Name()
+		return "free:" + CanonFree(x.Parent(), x.Name())
 	case *ssa.Const:
 		return constString(x)
 	case *ssa.Global:
@@ -355,5 +355,5 @@ func allocName(x *ssa.Alloc) string {
 	case "", "complit", "varargs", "new", "slicelit", "makeslice":
 		return "alloc:" + typeName(deref(x.Type()))
 	}
-	return "local:" + c
+	return "local:" + CanonLocal(x.Parent(), c)
 }
